@@ -8,6 +8,7 @@ CONSTANTS K = 2
   NH = 9
   Depth = 8
   Acts <- ActsC02sim
+  LeafProps <- NoProps
   Emit = TRUE
 INIT Init
 NEXT Next
